@@ -22,7 +22,7 @@ func runC12(c *Ctx) {
 	// ---- fixed-size reads use io.ReadFull
 	pfbRead := c.method("pfb", "pfbReader", "Read")
 	nFull, nArr := 0, 0
-	eachInstr(pfbRead, func(ins ssa.Instruction) {
+	c.eachInstrDeep(pfbRead, 2, func(ins ssa.Instruction) {
 		if call, ok := ins.(*ssa.Call); ok {
 			if sc := call.Common().StaticCallee(); sc != nil && calleeName(sc) == "io.ReadFull" {
 				nFull++
@@ -40,7 +40,7 @@ func runC12(c *Ctx) {
 		"the PFB decoder no longer reads the 6-byte segment header and the binary segment bytes with io.ReadFull: a short read would be taken for the whole item")
 	peek := c.fn("type1", "peek")
 	nFull = 0
-	eachInstr(peek, func(ins ssa.Instruction) {
+	c.eachInstrDeep(peek, 2, func(ins ssa.Instruction) {
 		if call, ok := ins.(*ssa.Call); ok {
 			if sc := call.Common().StaticCallee(); sc != nil && calleeName(sc) == "io.ReadFull" {
 				nFull++
@@ -48,7 +48,7 @@ func runC12(c *Ctx) {
 		}
 	})
 	plainReads := 0
-	eachInstr(peek, func(ins ssa.Instruction) {
+	c.eachInstrDeep(peek, 2, func(ins ssa.Instruction) {
 		if call, ok := ins.(*ssa.Call); ok && call.Common().IsInvoke() && call.Common().Method.Name() == "Read" {
 			plainReads++
 		}
